@@ -97,6 +97,11 @@ func encodeCharset(names []int32) ([]byte, error) {
 		return nil, errors.New("invalid charset (missing .notdef)")
 	}
 	names = names[1:]
+	for _, name := range names {
+		if name < 0 || name > 0xFFFF {
+			return nil, fmt.Errorf("invalid charset entry: %d", name)
+		}
+	}
 
 	// find runs of consecutive glyph names
 	runs := []int{0}
